@@ -245,6 +245,55 @@ pub fn error_line(e: &anyhow::Error) -> String {
     }
 }
 
+#[cfg(gosyn_verif)]
+fn state_of(p: &gosyn::Parser) -> String {
+    let (level, depth, _lead) = p.verif_state();
+    format!(" ; state={},{}", level, depth)
+}
+#[cfg(not(gosyn_verif))]
+fn state_of(_: &gosyn::Parser) -> String {
+    String::new()
+}
+
+/// the same entry points, followed by the state the parser is left in: "<line> ; state=<expr_level>,<depth>"
+pub fn parse_line_state(mode: &str, src: &str) -> String {
+    let mut p = gosyn::Parser::from(src);
+    let line = match mode {
+        "parse" => match p.parse_file() {
+            Ok(f) => format!("OK {} | {}", file(&f), comments(&f.comments)),
+            Err(e) => error_line(&e),
+        },
+        "expr" => match p.expression() {
+            Ok(x) => format!("OK {}", expr(&x)),
+            Err(e) => error_line(&e),
+        },
+        "stmt" => match p.parse_stmt() {
+            Ok(x) => format!("OK {}", stmt(&x)),
+            Err(e) => error_line(&e),
+        },
+        m if m.starts_with("stmts") => {
+            let n: usize = m[5..].parse().unwrap();
+            let mut out = vec![];
+            let mut err = None;
+            for _ in 0..n {
+                match p.parse_stmt() {
+                    Ok(x) => out.push(stmt(&x)),
+                    Err(e) => {
+                        err = Some(error_line(&e));
+                        break;
+                    }
+                }
+            }
+            match err {
+                Some(e) => e,
+                None => format!("OK {}", list(out)),
+            }
+        }
+        _ => panic!("unknown parse mode"),
+    };
+    format!("{}{}", line, state_of(&p))
+}
+
 /// "OK <tree> | c1 c2 ..." | "ERR ..."
 pub fn parse_line(mode: &str, src: &str) -> String {
     match mode {
